@@ -835,6 +835,8 @@ def check(ctx):
     check_multi_asset(ctx, torch, g)
     check_step_sizes(ctx, torch, g)
     check_listing_protocol(ctx, torch, g)
+    import ext_listing
+    ext_listing.run(ctx, ctx.gen.__class__(f"{ctx.seed}:ext_listing"))      # list / delist protocols (Model/Listing, op listing)
     return ctx.finish(
         rule="functional payoffs on dyadic paths (ties with the strike/extremes frequent, T=1,2,.., float32/64), derivative objects "
              "with injected buffers and random clause sequences (re-registration included; the same clause = the same callable object "
